@@ -94,11 +94,17 @@ def run_suite(ctx, suite_name, exes, scripts, run_batch, run_one, judge, classif
     return nfail
 
 
-def load_corpus(prop):
+def load_corpus(prop, prefix=None):
+    """corpus scripts of a property; files named `q_*` belong to the queue harness, all others to the
+    callback-list harness (prefix=None)"""
     res = []
     cdir = os.path.join(vlib.CORPUS, prop)
     if os.path.isdir(cdir):
         for f in sorted(os.listdir(cdir)):
+            if prefix is None and f.startswith("q_"):
+                continue
+            if prefix is not None and not f.startswith(prefix):
+                continue
             txt = open(os.path.join(cdir, f)).read()
             # a corpus file may hold several scripts
             cur = []
